@@ -264,6 +264,9 @@ pub struct Replay {
     pub origin: String,
     /// event-log digest of the execution that produced the file (replay must reproduce it exactly)
     pub digest: Option<u64>,
+    /// runs executed before the final scenario in the same thread of the same process (only for
+    /// violations that depend on state the code under test keeps across calls)
+    pub prelude: Vec<Scenario>,
     pub scenario: Scenario,
 }
 
@@ -280,6 +283,10 @@ impl Replay {
         if let Some(d) = self.digest {
             let _ = writeln!(s, "digest {:016x}", d);
         }
+        for p in &self.prelude {
+            s.push_str(&p.to_text());
+            s.push_str("next-run\n");
+        }
         s.push_str(&self.scenario.to_text());
         s.push_str("expect violation\n");
         s
@@ -293,6 +300,7 @@ impl Replay {
         let mut digest = None;
         let mut world = String::new();
         let mut items = Vec::new();
+        let mut prelude: Vec<Scenario> = Vec::new();
         let mut seen_magic = false;
         for line in text.lines() {
             let line = line.trim();
@@ -324,6 +332,8 @@ impl Replay {
                 digest = u64::from_str_radix(p.trim(), 16).ok();
             } else if let Some(p) = line.strip_prefix("world ") {
                 world = p.trim().to_string();
+            } else if line == "next-run" {
+                prelude.push(Scenario { world: std::mem::take(&mut world), items: std::mem::take(&mut items) });
             } else if line.starts_with("expect ") {
                 continue;
             } else {
@@ -333,6 +343,6 @@ impl Replay {
         if property.is_empty() || world.is_empty() {
             return Err("replay file lacks property or world".into());
         }
-        Ok(Replay { property, signature, detail, origin, digest, scenario: Scenario { world, items } })
+        Ok(Replay { property, signature, detail, origin, digest, prelude, scenario: Scenario { world, items } })
     }
 }
